@@ -2,6 +2,8 @@
 import random
 from .C03 import _rank_profiles, _pick
 
+THOROUGH_SEEDS = 1
+
 
 def cases(tier, seed):
     rng = random.Random(seed + 20)
